@@ -243,3 +243,34 @@ def r8(rr, repo):
 def r9(rr, repo):
     from .c02 import r2 as c02r2
     c02r2(rr, repo)
+
+
+@rule('C05.R10', "under balanced outputs a listener never draws frames: an output becomes eligible for a frame only through the request of a synchronized client - the per-output count of requests that the choice of the "
+                 "output rests on counts a client only when it is not ephemeral; an output that only a '?' listener watches (its worker is gone) otherwise takes its share of the frames away from the workers")
+def r10(rr, repo):
+    za = anchors(repo)
+    loop, paths = client_loop_paths(za)
+    st = {id(e.node): e for p in paths for e in p.events if e.kind == 'store' and isinstance(e.value, ast.Tuple) and len(e.value.elts) == 3}
+    rr.floor('per-output summaries built in the client loop', len(st), 1, za.mod, loop)
+    i_eph, i_req = za.client_fields.index('ephemeral'), za.client_fields.index('requested')
+    for e in st.values():
+        cnt = e.value.elts[1]
+        if not (isinstance(cnt, ast.BinOp) and isinstance(cnt.op, ast.Add)):
+            rr.unresolved('the request count of an output is not a sum over its clients', za.mod, e.node, witness=U(cnt)[:120], key='bal-count-form')
+            continue
+        terms = [t for t in (cnt.left, cnt.right) if not U(t).endswith('[1]') and 'nrequested' not in U(t)]
+        if len(terms) != 1:
+            rr.unresolved('cannot tell the per-client term of the request count', za.mod, e.node, witness=U(cnt)[:120], key='bal-count-form')
+            continue
+        t = terms[0]
+        mentions_req = any(U(x).endswith(f'[1][{i_req}]') for x in ast.walk(t))
+        excl = isinstance(t, ast.BoolOp) and isinstance(t.op, ast.And) and any(isinstance(v, ast.UnaryOp) and isinstance(v.op, ast.Not) and U(v.operand).endswith(f'[1][{i_eph}]') for v in t.values) and \
+            any(U(v).endswith(f'[1][{i_req}]') for v in t.values)
+        plain = U(t).endswith(f'[1][{i_req}]')
+        if excl or plain:
+            rr.ob("balanced: the request of an ephemeral client is not counted towards its output's eligibility", excl, za.mod, e.node, witness=U(t)[-160:], key='bal-eph-not-counted')
+        else:
+            rr.unresolved("balanced: the per-client term of the request count has a form this rule does not know", za.mod, e.node, witness=U(t)[-160:], key='bal-count-form')
+    # the count really is what eligibility rests on: send_maybe picks among outputs with `out_do_send and out_nrequested`
+    picks = [c for c in ast.walk(za.S_maybe) if isinstance(c, ast.comprehension) and any('nrequested' in U(i) for i in c.ifs)]
+    rr.ob('the output for a frame is chosen among outputs with at least one counted request', bool(picks), za.mod, za.S_maybe, witness=U(picks[0].ifs[0])[:100] if picks else 'no filter on the request count', key='bal-pick-counted')
